@@ -553,9 +553,25 @@ class K:
 '''
 
 
+FIELDS_MODULE = '''\
+from typing import Dict, Optional, Sequence
+class Base:
+    def run(self, retries: int = 0, *names: str) -> int:
+        {doc}
+class Sub(Base):
+    def run(self, retries: Optional[Sequence[int]] = None, *names: bytes) -> Dict[str, int]:
+        pass
+class Same(Base):
+    def run(self, retries=0, *names):
+        pass
+'''
+
+
 def _decl_cases(tier, seed):
     yield {'decl': 'attrs'}
     yield {'decl': 'decorators'}
+    yield {'decl': 'fields', 'fmt': 'epytext'}
+    yield {'decl': 'fields', 'fmt': 'restructuredtext'}
 
 
 def _check_decl(case):
@@ -573,6 +589,26 @@ def _check_decl(case):
             got = None if o is None or o.annotation is None else ast.unparse(o.annotation)
             if got is None or _norm(got) != _norm(want):
                 fails.append({'observed': f'{name}: the type shown is {got!r}', 'required': f'{want!r} (as declared)', 'class': 'attrs-type'})
+        return fails or None
+    if case['decl'] == 'fields':
+        # the types shown in the parameter table of a method that inherits its docstring are those of the method itself
+        from pydoctor import epydoc2stan
+        from pydoctor.stanutils import flatten_text
+        doc = ('"""Run.\n\n        @param retries: how often\n        @param names: the names\n        @return: the count\n        """' if case['fmt'] == 'epytext' else
+               '"""Run.\n\n        :param retries: how often\n        :param names: the names\n        :returns: the count\n        """')
+        system = fixtures.build_system([('fm', FIELDS_MODULE.replace('{doc}', doc), False)], options={'docformat': case['fmt']})
+        want = {'fm.Base.run': ('retries: int', '*names: str', 'int'), 'fm.Sub.run': ('retries: Optional[Sequence[int]]', '*names: bytes', 'Dict[str, int]'),
+                'fm.Same.run': ('retries', '*names', None)}
+        for name, (p1, p2, ret) in want.items():
+            text = flatten_text(epydoc2stan.format_docstring(system.allobjects[name])).replace('\u200b', '')
+            text = re.sub(r'\s+', '', text)
+            p1, p2, ret = p1.replace(' ', ''), p2.replace(' ', ''), (ret.replace(' ', '') if ret else ret)
+            for piece in (p1, p2):
+                if piece not in text or (':' not in piece and (piece + ':') in text):
+                    fails.append({'observed': f'{name}: the parameter table reads {text[:160]!r}', 'required': f'{piece!r} (the types of the method that is documented)', 'class': 'field-types'})
+                    break
+            if ret is not None and ret not in text.split('Returns', 1)[-1]:
+                fails.append({'observed': f'{name}: the Returns row reads {text.split("Returns", 1)[-1][:80]!r}', 'required': f'{ret!r}', 'class': 'field-types'})
         return fails or None
     rc, out, d = site.run_project({'dm/__init__.py': DECO_MODULE}, [])
     try:
